@@ -48,7 +48,7 @@ pub fn run(a: &Args, prop: &str) -> i32 {
         if !c.compiled {
             continue;
         }
-        let pg = PayloadGen { s: &c.schema, doc: &c.doc, deny_deprecated: c.opts.deprecation == "deny", max_list: 3, depth_budget: 5 };
+        let pg = PayloadGen { s: &c.schema, doc: &c.doc, deny_deprecated: c.opts.deprecation == "deny", max_list: 3, depth_budget: 5, absent_percent: if prop == "C01" { 35 } else { 0 } };
         for (mi, op) in c.doc.ops.iter().enumerate() {
             if mi >= c.modules.len() {
                 break;
@@ -63,6 +63,7 @@ pub fn run(a: &Args, prop: &str) -> i32 {
                     rep.count_n("payload:abstract_positions", st.abstract_positions as u64);
                     rep.count_n("payload:lists", st.lists as u64);
                     rep.count_n("payload:nulls", st.nulls as u64);
+                    rep.count_n("payload:absent_nullable_keys", st.absent as u64);
                     rep.count_n("payload:integer_ids", st.int_ids as u64);
                     rep.count_n("payload:objects", st.objects as u64);
                     vectors.push(Vector { case: c.id, module: mi, op: op_struct.clone(), payload, expected: Some(expected), corruption: None, nontrivial });
